@@ -163,9 +163,9 @@ def obligations(tier, seed):
             nm, ["t"], polygon_body(pname, k, off), pre=pre, first_sample=dict(t=F(1, 3)), functions=functions_encoded([S.ConvexPolygon.distance_to_surface]),
             max_paths=(40 if tier == "quick" else 120), budget_s=(200 if tier == "quick" else 900), stubs=["kabsch / qhull contract stubs"],
             bounds="convex polygon %s (concrete, offset %s), direction parameter t free (all directions except pi and +-pi/2), turn count %d; path budget" % (pname, off, k)))))
-    scfg = [("square_axes", 0, F(1, 2)), ("trapezoid", 0, F(1, 2)), ("rect_off", 0, F(1, 4))]
+    scfg = [("square_axes", 0, F(1, 2)), ("trapezoid", 0, F(1, 2)), ("rect_off", 0, F(1, 4)), ("square_axes", 1, F(1, 2)), ("trapezoid", -1, F(1, 2))]
     if tier == "thorough":
-        scfg += [("quad", 0, F(1, 2)), ("tri", 0, F(1, 3)), ("square_axes", 1, F(1, 2)), ("pent", 0, F(1, 2))]
+        scfg += [("quad", 0, F(1, 2)), ("tri", 0, F(1, 3)), ("pent", 0, F(1, 2)), ("tri", 2, F(3)), ("rect_off", -2, F(1, 4))]
     for pname, k, rr in scfg:
         nm = "C14/ConvexSpheropolygon.%s.k%d.r%s" % (pname, k, str(rr).replace("/", "_"))
         obs.append((nm, (lambda nm=nm, pname=pname, k=k, rr=rr: run_e2(
